@@ -58,6 +58,9 @@ def _dispatch(model: Model):
 class _LegModel:
     ARRS = ("X", "W")
 
+    sign = 1            # scenario: sign of xu - xl (both are decided when the implementation takes an absolute value of it)
+    abs_seen = False
+
     def __init__(self, fi: FuncInfo, n_value: Optional[int] = None, n_name: Optional[str] = None):
         self.fi = fi
         P = fi.params()
@@ -132,6 +135,19 @@ class _LegModel:
                 return v
         if fn == "len":
             return Opaque("len")
+        absarg = c.args[0] if fn in ("torch.abs", "abs", "torch.absolute") and len(c.args) == 1 else \
+            (c.func.value if isinstance(c.func, ast.Attribute) and c.func.attr in ("abs", "absolute") and not c.args and fn not in ("torch.abs",) else None)
+        if absarg is not None:
+            # |k (xu - xl)| under the scenario sign(xu - xl) = self.sign: decided for both orientations of the interval
+            v = fr.ev(absarg)
+            d = S("xu") - S("xl")
+            if isinstance(v, Rat):
+                k = v.subs("xu", C(1)).subs("xl", C(0))
+                if not k.symbols() and v.eq(k * d) and not k.eq(C(0)):
+                    _LegModel.abs_seen = True
+                    pos = _rat_sign(k) > 0
+                    return v if (self.sign > 0) == pos else -v
+            raise Uninterpretable("absolute value of %s" % ast.unparse(absarg))
         if isinstance(c.func, ast.Attribute) and c.func.attr in ("reshape", "view", "contiguous", "to", "clone"):
             # a reshape of the node / weight array keeps the order of its entries (row-major): layout only
             base = fr.ev(c.func.value)
@@ -145,6 +161,12 @@ class _LegModel:
             self.calls.append((c, tuple(fr.loop_syms), x, rest))
             return fr.atom("F", (x,))
         return None
+
+
+def _rat_sign(k: Rat) -> int:
+    """sign of a constant rational normal form"""
+    txt = repr(k).strip()
+    return -1 if txt.startswith("-") else 1
 
 
 def _specialised(model: Model, A: RuleResult, I: RuleResult, impl: FuncInfo, why: str, tier: str):
@@ -246,8 +268,12 @@ def _affine_and_sum(model: Model, A: RuleResult, I: RuleResult, impl: FuncInfo, 
     xarg = fr.atoms[fsyms[0]][1][0]
     wpart = term.subs(fsyms[0], C(1))
     linear = term.eq(wpart * S(fsyms[0]))
+    mirrored = (C(0) - fr.atom("X", (S(ssym),))) * half + mid
     if xarg.eq(node(S(ssym))):
         A.ok(fi.fq, "node i == X[i]*(xu-xl)/2 + (xu+xl)/2")
+    elif xarg.eq(mirrored):
+        # the Gauss-Legendre rule is symmetric (X[n-1-i] = -X[i], W[n-1-i] = W[i]): the mirrored nodes with the same weights are the same rule
+        A.ok(fi.fq, "node i == -X[i]*(xu-xl)/2 + (xu+xl)/2 (the mirrored node set: same rule by the symmetry of Gauss-Legendre nodes and weights)")
     else:
         A.bad(fi, loopnode, "the abscissa is not the affine image of the Legendre node: normal form %r, expected %r" % (xarg, node(S(ssym))))
     if linear and wpart.eq(weight(S(ssym))):
@@ -640,7 +666,18 @@ def rules(model: Model, tier: str) -> List[RuleResult]:
         M.ok(fwd.fq, "the rule is called with **<forward options>, so the caller's n reaches leggauss(n=...)")
     else:
         M.bad(fwd, fwd.node, "the caller's options (n) must be splatted into the rule")
+    _LegModel.sign, _LegModel.abs_seen = 1, False
     _affine_and_sum(model, A, I, impl, tier)
+    if _LegModel.abs_seen:
+        # the implementation takes an absolute value of the interval length: the same obligations with xu < xl (the integral changes sign)
+        na, ni = len(A.findings), len(I.findings)
+        _LegModel.sign = -1
+        try:
+            _affine_and_sum(model, A, I, impl, tier)
+        finally:
+            _LegModel.sign = 1
+        for fd in A.findings[na:] + I.findings[ni:]:
+            fd.message = "for xu < xl (the implementation takes |xu - xl|; the integral must change sign with the orientation of the interval): " + fd.message
     _substitution(model, Sr, N, fwd, callsite)
     _tuple_out(model, P)
     from .c07 import _tensor_packer
